@@ -119,3 +119,130 @@ func cmdTagAudit() {
 		}
 	}
 }
+
+// inheritTags: a caller's proof assumes every clause of its callees, so every
+// obligation of a callee supports the properties its (transitive) callers'
+// clauses are tagged with. The written tags stay the primary record; this
+// closure makes a property's check also report a callee obligation whose
+// written tags forgot that property.
+func (p *Program) inheritTags(obls []*Obligation) int {
+	byName := map[string]*ssa.Function{}
+	for _, f := range p.allFunctions() {
+		byName[p.contractName(f.fn)] = f.fn
+	}
+	for n := range p.Contracts.Funcs {
+		if f := p.depFunction(n); f != nil {
+			byName[n] = f
+		}
+	}
+	calleesOf := func(fn *ssa.Function) []string {
+		seen := map[string]bool{}
+		var visit func(fn *ssa.Function, depth int)
+		visit = func(fn *ssa.Function, depth int) {
+			for _, b := range fn.Blocks {
+				for _, in := range b.Instrs {
+					var cc *ssa.CallCommon
+					switch c := in.(type) {
+					case *ssa.Call:
+						cc = &c.Call
+					case *ssa.Defer:
+						cc = &c.Call
+					}
+					if cc == nil || cc.IsInvoke() {
+						continue
+					}
+					var tgt *ssa.Function
+					switch f := cc.Value.(type) {
+					case *ssa.Function:
+						tgt = f
+						if f.String() == "(*sync.Once).Do" && len(cc.Args) == 2 {
+							switch lit := cc.Args[1].(type) {
+							case *ssa.Function:
+								tgt = lit
+							case *ssa.MakeClosure:
+								tgt, _ = lit.Fn.(*ssa.Function)
+							}
+						}
+					case *ssa.MakeClosure:
+						tgt, _ = f.Fn.(*ssa.Function)
+					}
+					if tgt == nil || tgt.Blocks == nil {
+						continue
+					}
+					n := p.contractName(tgt)
+					if p.Contracts.Funcs[n] != nil {
+						seen[n] = true
+					} else if depth < 3 && (p.isOurPkg(tgt.Pkg) || (tgt.Parent() != nil && p.isOurPkg(tgt.Parent().Pkg))) {
+						// a helper executed inline: its callees are the caller's
+						visit(tgt, depth+1)
+					}
+				}
+			}
+		}
+		visit(fn, 0)
+		var out []string
+		for n := range seen {
+			out = append(out, n)
+		}
+		sort.Strings(out)
+		return out
+	}
+	inherit := map[string]map[string]bool{}
+	for i := 1; i <= 16; i++ {
+		prop := fmt.Sprintf("C%02d", i)
+		visited := map[string]bool{}
+		var walk func(n string)
+		walk = func(n string) {
+			if visited[n] {
+				return
+			}
+			visited[n] = true
+			fn := byName[n]
+			if fn == nil {
+				return
+			}
+			for _, c := range calleesOf(fn) {
+				if inherit[c] == nil {
+					inherit[c] = map[string]bool{}
+				}
+				inherit[c][prop] = true
+				walk(c)
+			}
+		}
+		for n, fc := range p.Contracts.Funcs {
+			for _, e := range fc.Ensures {
+				if hasStr(e.Tags, prop) {
+					walk(n)
+					break
+				}
+			}
+		}
+	}
+	added := 0
+	for _, o := range obls {
+		props := inherit[o.Fn]
+		if props == nil || o.Kind == "cover" || o.Kind == "cover-return" || o.Kind == "cover-goal" {
+			continue
+		}
+		if len(o.Tags) == 1 && o.Tags[0] == "C17" {
+			continue
+		}
+		for prop := range props {
+			if !hasStr(o.Tags, prop) {
+				o.Tags = append(o.Tags, prop)
+				added++
+			}
+		}
+		sort.Strings(o.Tags)
+	}
+	return added
+}
+
+func hasStr(xs []string, x string) bool {
+	for _, y := range xs {
+		if y == x {
+			return true
+		}
+	}
+	return false
+}
